@@ -304,7 +304,10 @@ def run(cx):
     if b:
         pushes = b.calls('Vec::push')
         # the current original point: the items of original.iter().skip(1) or of &original[1..]; the fillers: pushed one by one or appended with extend
-        PCUR = '(or (itervar (call Iterator::skip (param original) 1)) (itervar (index (param original) (agg *RangeFrom (start 1)))))'
+        W = '(itervar (call slice::windows (param original) 2))'
+        PCUR = f'(or (or (itervar (call Iterator::skip (param original) 1)) (itervar (index (param original) (agg *RangeFrom (start 1))))) (index {W} 1))'
+        # the previous point: the last one pushed so far, or - the same point - the first element of the window over the originals
+        PREV = f'(or (unwrap (call slice::last _)) (index {W} 0))'
         orig = [s for s in pushes if match(PCUR, cx.arg(s, 1)) is not None]
         fill = [s for s in pushes if find('(call *evenly_spaced_points_between _ _ _)', cx.arg(s, 1)) is not None] + \
             [s for s in b.calls('Vec::extend') if match('(call *evenly_spaced_points_between _ _ _)', cx.arg(s, 1)) is not None]
@@ -321,10 +324,10 @@ def run(cx):
         ok_fill = len(fill) == 1
         if ok_fill:
             s = fill[0]
-            g1 = cx.guarded(b, s.bb, '(lt (param max_dist) (call *points::dist (itervar _) (unwrap (call slice::last _))))', True)
+            g1 = cx.guarded(b, s.bb, f'(lt (param max_dist) (call *points::dist {PCUR} {PREV}))', True)
             # n was grown until d/(n+1) <= max_dist
-            g2 = cx.guarded(b, s.bb, '(lt (param max_dist) (div (call *points::dist (itervar _) (unwrap (call slice::last _))) (cast f64 (add 1 $n))))', False)
-            e = find(f'(call *evenly_spaced_points_between (unwrap (call slice::last _)) {PCUR} $n)', cx.arg(s, 1))
+            g2 = cx.guarded(b, s.bb, f'(lt (param max_dist) (div (call *points::dist {PCUR} {PREV}) (cast f64 (add 1 $n))))', False)
+            e = find(f'(call *evenly_spaced_points_between {PREV} {PCUR} $n)', cx.arg(s, 1))
             ok_fill = g1 is not None and g2 is not None and e is not None and e[1]['n'] == g2['n']
             # the inserted points come before the original point of the same iteration
             ok_fill = ok_fill and orig and b.dominates(s.bb, orig[0].bb) is False and orig[0].bb in b.reach_from([s.bb])
